@@ -361,7 +361,9 @@ def gen_program(rng, max_calls=8):
             'lifecycle': rng.choice(['with'] * 7 + ['open-close', 'open-close', 'bare']),
             # how the objects of a segment are handed over: a list, a tuple, or a one-shot iterable
             # (writer.write_segment(ChannelObject(g, n, a) for n, a in data.items()))
-            'objects_as': rng.choice(['list'] * 7 + ['tuple', 'generator', 'generator'])}
+            'objects_as': rng.choice(['list'] * 7 + ['tuple', 'generator', 'generator']),
+            # the caller builds its objects once and updates them in place before each further write_segment call
+            'keep_objects': rng.random() < 0.15}
 
 
 # ------------------------------------------------------------------------------ materialisation
@@ -439,8 +441,24 @@ def _make_data(nptdms, d):
 def make_objects(nptdms, call, cache=None):
     """cache: per-program dict of array objects that several calls / channels share (the same object, not a copy)."""
     out = []
+    kept = cache.setdefault('__objects__', {}) if (cache is not None and cache.get('__keep__')) else None
     for o in call:
         props = None if o.get('props') is None else {name: make_value(nptdms, pv) for name, pv in o['props']}
+        if kept is not None:
+            # the caller keeps its writer objects between calls and updates them in place: the properties dict it handed over
+            # the first time is cleared and refilled, the data attribute is assigned
+            key = (o['kind'], o.get('group'), o.get('channel'))
+            old = kept.get(key)
+            new_data = make_data(nptdms, o['data'], cache) if (old is not None and o['kind'] == 'channel') else None
+            # (data is assigned only as a numpy array: lists and tuples are converted by the constructor, not by assignment)
+            if old is not None and props is not None and isinstance(getattr(old, 'properties', None), dict) \
+                    and not (o['kind'] == 'channel' and (o['data'].get('reassign') or type(new_data) is not np.ndarray)):
+                old.properties.clear()
+                old.properties.update(props)
+                if o['kind'] == 'channel':
+                    old.data = new_data
+                out.append(old)
+                continue
         if o['kind'] == 'root':
             out.append(nptdms.RootObject(props))
         elif o['kind'] == 'group':
@@ -454,6 +472,8 @@ def make_objects(nptdms, call, cache=None):
                 out.append(obj)
             else:
                 out.append(nptdms.ChannelObject(o['group'], o['channel'], data, props))
+        if kept is not None:
+            kept[(o['kind'], o.get('group'), o.get('channel'))] = out[-1]
     return out
 
 
